@@ -249,6 +249,7 @@ def run(ctx: Ctx):
 
     ctx.rule("R19.e", "print methods only interpolate text that went through the printer (so that sympy's reserved-word renaming applies to every symbol)", floor=8)
     printers.check_class_attr_overrides(ctx, "R19.e")
+    check_bindings_go_through_printer(ctx, "R19.e")
     for pr in ("numpy", "jax", "c", "ode"):
         for g in M.chains[pr]:
             for mname, f in g.methods.items():
@@ -399,3 +400,32 @@ def check_generated_names(ctx: Ctx, rule: str):
     from .c11 import check_writer_rows
 
     check_writer_rows(ctx, rule, only={"Exp1", "Pi"})
+
+
+def check_bindings_go_through_printer(ctx: Ctx, rule: str):
+    """A statement `<name> = ...` in generated code is produced by the printer (Assignment(lhs, rhs) via _doprint), which
+    renames identifiers the target language reserves (`lambda` -> `lambda_`) consistently at the binding and at every
+    use.  A generator method that writes the left-hand side itself - an f-string whose text before ` = ` ends in an
+    interpolated value that is not a printed one - binds the raw name while the uses are printed renamed."""
+    n = 0
+    for short, cname in (("codegen/base.py", "CodeGenerator"), ("codegen/python.py", "PythonCodeGenerator"), ("codegen/c.py", "CCodeGenerator"), ("codegen/jax.py", "JaxCodeGenerator")):
+        k = ctx.sm.cls(short, cname, required=False)
+        if k is None:
+            continue
+        for mname, f in k.methods.items():
+            n += 1
+            bad = None
+            for js in [x for x in ast.walk(f.node) if isinstance(x, ast.JoinedStr)]:
+                parts = js.values
+                for i, p_ in enumerate(parts):
+                    if isinstance(p_, ast.Constant) and isinstance(p_.value, str) and re.match(r"^\s*(:[^=]*)?=(?!=)", p_.value) and i > 0 and isinstance(parts[i - 1], ast.FormattedValue):
+                        v = parts[i - 1].value
+                        printed = isinstance(v, ast.Call) and (dotted(v.func) or "").split(".")[-1] in ("doprint", "_print", "_doprint")
+                        if not printed and not isinstance(v, ast.Constant):
+                            bad = (js, v)
+            if bad is None:
+                ctx.ok(rule, f.key("bindings-printed"), "no hand-written left-hand side", f.where(), nontrivial=False)
+            else:
+                ctx.fail(rule, f.key("bindings-printed"), f"{cname}.{mname} writes the statement `{norm(bad[0])[:80]}` itself: its left-hand side `{norm(bad[1])[:40]}` does not go through the printer, so a model name the target language reserves is bound under its raw name while every use is printed renamed (the generated module does not compile, or binds another variable)", f.where(bad[0]))
+    if not n:
+        ctx.broken("no generator class found (anchor vanished)")
